@@ -71,10 +71,21 @@ structure NIface where
   owner : Option String
   deriving DecidableEq, Repr
 
+/-- An interface of a service. The list position is its identity; `name` is only a label: two interfaces
+of one service may carry the same name (service ports are called `<node>-<interface>`), and the name-keyed
+view `NetworkService.interfaces` then shows fewer entries than `interface_list`. `validate` walks the list. -/
 inductive SIface
-  | direct (kind : String)
-  | port (peers : Option (List NIface))
+  | direct (name : String) (kind : String)
+  | port (name : String) (peers : Option (List NIface))
   deriving Repr
+
+def SIface.name : SIface → String
+  | .direct n _ => n
+  | .port n _ => n
+
+def SIface.rename (f : String → String) : SIface → SIface
+  | .direct n k => .direct (f n) k
+  | .port n ps => .port (f n) ps
 
 structure Svc where
   ty : String
@@ -84,12 +95,19 @@ structure Svc where
   ifs : List SIface
   deriving Repr
 
+/-- the name-keyed view `NetworkService.interfaces` (a dict: one entry per distinct name) -/
+def Svc.interfaceNames (s : Svc) : List String := (s.ifs.map SIface.name).eraseDups
+
+def Svc.rename (f : String → String) (s : Svc) : Svc := { s with ifs := s.ifs.map (SIface.rename f) }
+
 structure Topo where
   /-- the slice is an `ExperimentTopology` (interface-count limits apply) -/
   exp : Bool
   nodes : List Node
   svcs : List Svc
   deriving Repr
+
+def Topo.rename (f : String → String) (t : Topo) : Topo := { t with svcs := t.svcs.map (Svc.rename f) }
 
 /-! ### nodes : `Node.validate_constraints` -/
 
@@ -121,9 +139,9 @@ def visibleNodes (c : Cfg) (t : Topo) : List Node :=
 
 /-- the loop in `Topology.validate` that replaces every `ServicePort` by its single peer -/
 def resolveOne (s : Svc) : SIface → Except Err NIface
-  | .direct k => .ok ⟨k, s.owner⟩
-  | .port (some [p]) => .ok p
-  | .port _ => .error .topology
+  | .direct _ k => .ok ⟨k, s.owner⟩
+  | .port _ (some [p]) => .ok p
+  | .port _ _ => .error .topology
 
 def resolve (s : Svc) : List SIface → Except Err (List NIface)
   | [] => .ok []
